@@ -385,6 +385,8 @@ def b_hasattr(it, args, kw, fr):
     nm = it.concrete(args[1])
     if isinstance(o, VObj) and nm is not _NOCONST:
         return VBool(nm in o.fields or it.find_method(o.cls, nm) is not None)
+    if isinstance(o, VTuple) and o.ntfields is not None and nm is not _NOCONST:
+        return VBool(nm in o.ntfields or hasattr(tuple, nm))
     raise OutOfSubset("hasattr")
 
 
@@ -782,6 +784,16 @@ def seq_append(it, sz, xz):
 
 
 def m_seq(it, s, meth, args, kwargs, fr):
+    old_z = s.z
+    r = _m_seq(it, s, meth, args, kwargs, fr)
+    hook = getattr(it.reg, "seq_op_hook", None)
+    if hook is not None and s.z is not old_z:
+        # a property module may spell out element-wise consequences of the list operation
+        hook(it, s, meth, old_z, args)
+    return r
+
+
+def _m_seq(it, s, meth, args, kwargs, fr):
     a = [it.force(x) for x in args]
     et = s.elem
     if meth == "append":
@@ -904,6 +916,8 @@ def m_set(it, s, meth, args, kwargs):
         return from_z3(k, et)
     if meth == "issubset":
         return VBool(z3.IsSubset(s.z, a[0].z))
+    if meth == "isdisjoint" and isinstance(a[0], VSet) and a[0].z is not None:
+        return VBool(z3.SetIntersect(s.z, a[0].z) == z3.K(s.z.sort().domain(), z3.BoolVal(False)))
     raise OutOfSubset(f"set method {meth}")
 
 
